@@ -8,6 +8,7 @@ import MitmVerif.Lemmas.C35Str
 import MitmVerif.Model.C35_Gen
 import MitmVerif.Lemmas.C35Gen
 import MitmVerif.Lemmas.C35Parse
+import MitmVerif.Model.C35_View
 namespace MitmVerif.Props.C35
 open MitmVerif MitmVerif.C35
 open MitmVerif.C35.Spec (keq)
@@ -1536,6 +1537,29 @@ theorem multidict_fresh_key (kc : α → γ) (fs : List (α × β)) (k : α) (vs
       simp only [Gen.setAllLoop, he, Bool.false_eq_true, if_false, ih ws (fun f hf => hm f (by simp [hf]))]
   simp only [Gen.setAll, hloop fs vs hnone]
 
+/-- `view_run_refines` when the parent gives back only SOME field lists unchanged: it is enough that the getter/setter
+    law holds on an invariant that the start fields satisfy and every permitted operation preserves -/
+theorem view_run_refines_inv (kc : α → γ) (red : List β → β) (L : Gen.Lens σ α β)
+    (Inv : List (α × β) → Prop) (OpOk : Gen.MOp α β → Prop)
+    (hL : ∀ p fs, Inv fs → L.get (L.set p fs) = fs)
+    (hstep : ∀ fs op fs', Inv fs → OpOk op → (Gen.stepOp kc red fs op).1 = some fs' → Inv fs')
+    (ops : List (Gen.MOp α β)) : ∀ p : σ, Inv (L.get p) → (∀ op ∈ ops, OpOk op) →
+    Gen.View.runOps kc red L p ops = Gen.runOps kc red (L.get p) ops := by
+  induction ops with
+  | nil => intro p _ _; rfl
+  | cons op ops ih =>
+    intro p hinv hok
+    have hop := hok op (by simp)
+    have hrest : ∀ o ∈ ops, OpOk o := fun o ho => hok o (by simp [ho])
+    simp only [Gen.View.runOps, Gen.runOps, Gen.View.stepOp]
+    cases h : (Gen.stepOp kc red (L.get p) op).1 with
+    | none => simp [ih p hinv hrest]
+    | some fs' =>
+      have hinv' : Inv fs' := hstep _ op fs' hinv hop h
+      have hget : L.get (L.set p fs') = fs' := hL p fs' hinv'
+      simp only [Option.getD_some, hget]
+      rw [ih (L.set p fs') (by rw [hget]; exact hinv') hrest, hget]
+
 end Generic
 
 -- `MultiDictView` keys are case-SENSITIVE (`_kconv = id`): "a" and "A" are different keys there, one key in `Headers`
@@ -1544,5 +1568,88 @@ example : C35.getAll [([0x61], [0x31]), ([0x41], [0x32])] [0x61] = [[0x31], [0x3
 -- without the getter/setter law nothing carries over: a parent that drops what is stored
 example : Gen.View.getAll (id : Bytes → Bytes) (⟨fun _ => [], fun p _ => p⟩ : Gen.Lens Unit Bytes Bytes)
     (Gen.View.setAll id ⟨fun _ => [], fun p _ => p⟩ () [0x61] [[0x31]]) [0x61] = [] := by decide
+
+
+/-! ### the constructor's type check -/
+
+/-- `Headers(fields, …)` raises TypeError exactly when some name or value in `fields` is not `bytes`, whatever the
+    keyword arguments; otherwise it behaves as `construct` on the byte fields -/
+theorem ctor_typeerror_iff (tf : List (Arg × Arg)) (kw : List (PyStr × Arg)) :
+    (Api.constructFull tf kw = .error .typeError ↔ ∃ p ∈ tf, ∀ k v, p ≠ (Arg.b k, Arg.b v)) ∧
+    (∀ fs, Api.typedFields tf = some fs → Api.constructFull tf kw =
+        (match Api.construct fs kw with | some r => .ok r | none => .error .unicodeError)) := by
+  constructor
+  · have key : ∀ tf : List (Arg × Arg), Api.typedFields tf = none ↔ ∃ p ∈ tf, ∀ k v, p ≠ (Arg.b k, Arg.b v) := by
+      intro tf
+      induction tf with
+      | nil => simp [Api.typedFields]
+      | cons p r ih =>
+        obtain ⟨a, b⟩ := p
+        cases a with
+        | s x => simp [Api.typedFields]
+        | b k =>
+          cases b with
+          | s y => simp [Api.typedFields]
+          | b v =>
+            simp only [Api.typedFields, Option.map_eq_none_iff, ih, List.mem_cons]
+            constructor
+            · rintro ⟨p, hp, h⟩; exact ⟨p, Or.inr hp, h⟩
+            · rintro ⟨p, hp | hp, h⟩
+              · subst hp; exact absurd rfl (h k v)
+              · exact ⟨p, hp, h⟩
+    rw [← key]
+    simp only [Api.constructFull]
+    cases h : Api.typedFields tf with
+    | none => simp
+    | some fs => cases hc : Api.construct fs kw <;> simp [hc]
+  · intro fs h
+    simp only [Api.constructFull, h]
+    cases Api.construct fs kw <;> rfl
+
+example : Api.constructFull [(.b [0x61], .s [0x31])] [] = .error .typeError := by rfl
+example : Api.constructFull [(.b [0x61], .b [0x31])] [([0x78, 0x5f, 0x79], .s [0x32])] = .ok [([0x61], [0x31]), ([0x78, 0x2d, 0x79], [0x32])] := by
+  rfl
+
+/-! ### `request.cookies`: the getter/setter law comes from C34's cookie codec theorems -/
+
+/-- C34's class of pairs the Cookie header format carries (`Props.C34.RepPair`, restated so that this file does not
+    depend on another property's proof file) -/
+def CookiePairOk (e : PyStr × PyStr) : Prop :=
+  (∀ x ∈ e.1, C34.isSemiEq x = false) ∧ C34.lstrip e.1 = e.1 ∧ (e.2 ≠ [] ∨ e.1 ≠ [])
+
+/-- **`request.cookies` is a MultiDict over the parsed Cookie headers, for whole histories.**  For ANY Cookie header
+    values and any sequence of view calls whose new keys are cookie names (values are arbitrary), every return value
+    and the view's fields after every call are those of a free-standing `MultiDict` started with the parsed cookies.
+    The two hypotheses are literally C34's theorems `request_cookies_view_roundtrip` (format then parse gives the pairs
+    back) and `parse_yields_representable` (whatever the parser returns is in that class); `Lemmas/C35Cookie.lean`
+    discharges them with C34's proofs.  What is proved here is that every call keeps the fields inside that class. -/
+theorem request_cookies_view_refines
+    (hround : ∀ ps : List (PyStr × PyStr), (∀ e ∈ ps, CookiePairOk e) → C34.getCookies (C34.setCookies ps) = ps)
+    (hparse : ∀ (s : C34.Str), ∀ e ∈ C34.parseCookie s, CookiePairOk e)
+    (hdrs : List C34.Str) (ops : List (Gen.MOp PyStr PyStr))
+    (hops : ∀ op ∈ ops, ∀ k, MultiDictGen.MOp.key? op = some k → CookieKeyOk k) :
+    Gen.View.runOps (id : PyStr → PyStr) (Gen.first []) cookieLens hdrs ops
+      = Gen.runOps id (Gen.first []) (C34.getCookies hdrs) ops := by
+  apply view_run_refines_inv id (Gen.first []) cookieLens (fun ps => ∀ e ∈ ps, CookiePairOk e)
+    (fun op => ∀ k, MultiDictGen.MOp.key? op = some k → CookieKeyOk k)
+  · intro p fs hfs
+    exact hround fs hfs
+  · intro fs op fs' hinv hop hs e he
+    rcases MultiDictGen.mem_stepOp id (Gen.first []) fs fs' op hs e he with h1 | ⟨k, hk, hkeq⟩
+    · exact hinv e h1
+    · have hek : e.1 = k := by simpa [MultiDictGen.keq] using hkeq
+      obtain ⟨c1, c2, c3⟩ := hop k hk
+      refine ⟨by rw [hek]; exact c1, by rw [hek]; exact c2, Or.inr (by rw [hek]; exact c3)⟩
+  · intro e he
+    unfold cookieLens C34.getCookies at he
+    rw [List.mem_flatMap] at he
+    obtain ⟨h, _, hm⟩ := he
+    exact hparse h e hm
+  · exact hops
+
+-- "a=1; b=2" then `cookies["a"] = "x;y"` (value needs quoting), then lookup
+example : (Gen.View.runOps (id : PyStr → PyStr) (Gen.first []) cookieLens [[0x61, 0x3d, 0x31, 0x3b, 0x20, 0x62, 0x3d, 0x32]]
+    [.setItem [0x61] [0x78, 0x3b, 0x79], .getItem [0x61]]).map (·.2)
+    = [[([0x61], [0x78, 0x3b, 0x79]), ([0x62], [0x32])], [([0x61], [0x78, 0x3b, 0x79]), ([0x62], [0x32])]] := by decide
 
 end MitmVerif.Props.C35
